@@ -89,10 +89,15 @@ Fs == /\ IsKind("fs")
 
 \* ---- API calls -------------------------------------------------------------
 Fog(ws) == [ws EXCEPT !.fog = TRUE]
-FlagCtx(ws) == IF "msgone" \in ws.flags THEN ":error_pending_after_move_then_delete" ELSE ""
+FlagCtx(ws) == IF "msgone" \in ws.flags THEN ":error_pending_after_move_then_delete"
+               ELSE IF ws.ovf THEN ":overflow_pending" ELSE ""
+\* a control call that does not come back: Close in particular also fails to close the channels (C06) and to
+\* release the resources (C13); Add/Remove stuck behind a pending overflow report also break C10's "keeps accepting"
+BlockedProps(ws, op) == {"C05"} \cup (IF op = "close" THEN {"C06", "C13"} ELSE {})
+                               \cup (IF ws.ovf /\ op \in {"add", "remove"} THEN {"C10"} ELSE {})
 
 CallResult(ws, c) ==
-  IF c.ret = "blocked" THEN LET b == Fog(Bad(ws, {"C05"}, "blocked:" \o c.op \o FlagCtx(ws))) IN
+  IF c.ret = "blocked" THEN LET b == Fog(Bad(ws, BlockedProps(ws, c.op), "blocked:" \o c.op \o FlagCtx(ws))) IN
                             IF c.op = "close" THEN [RelaxAll(b) EXCEPT !.phase = "closing"] ELSE b
   ELSE IF c.ret = "pending" THEN LET b == Fog(Note(ws, "async")) IN
                             IF c.op = "close" THEN [RelaxAll(b) EXCEPT !.phase = "closing"] ELSE b
@@ -113,7 +118,7 @@ Call == /\ IsKind("call")
 
 \* an asynchronous call came back (or is confirmed blocked)
 JoinResult(ws, c) ==
-  IF c.ret = "blocked" THEN Bad(ws, {"C05"}, "blocked:" \o c.op \o FlagCtx(ws))
+  IF c.ret = "blocked" THEN Bad(ws, BlockedProps(ws, c.op), "blocked:" \o c.op \o FlagCtx(ws))
   ELSE IF c.op = "close" THEN IdealClose(ws, c.ret)
   ELSE ws
 
